@@ -20,7 +20,7 @@ Definition KeysOK (lg : Z) (mo : mon) (s : st) : Prop :=
 Definition Sim (lg : Z) (mo : mon) (s : st) : Prop :=
   mo_closed mo = cclosed s /\
   mo_subs mo = map msub_of (subs s) /\
-  mo_pubs mo = map (fun p => (p_reg p, p_key p)) (pubs s) /\
+  mo_pubs mo = map (fun p => (p_reg p, p_key p)) (filter p_held (pubs s)) /\
   mo_clones mo = map i_corr (clones s) /\
   (forall o, In o (subs s) -> NoDup (map i_corr (so_imgs o))) /\
   KeysOK lg mo s.
@@ -29,7 +29,7 @@ Lemma zmem_iff x l : zmem x l = true <-> In x l.
 Proof. unfold zmem. rewrite existsb_exists. split; [intros (y & A & B); replace x with y by lia; assumption|intros H; exists x; split; [assumption|lia]]. Qed.
 
 (* handles the monitor sees are references the model counts *)
-Lemma handle_in_use mo s : mo_subs mo = map msub_of (subs s) -> mo_pubs mo = map (fun p => (p_reg p, p_key p)) (pubs s) ->
+Lemma handle_in_use mo s : mo_subs mo = map msub_of (subs s) -> mo_pubs mo = map (fun p => (p_reg p, p_key p)) (filter p_held (pubs s)) ->
   mo_clones mo = map i_corr (clones s) -> forall k, has_handle mo k = true -> in_use_P s k.
 Proof.
   intros Hs Hp Hc k. unfold has_handle. rewrite Hs, Hp, Hc. rewrite !orb_true_iff, zmem_iff, !existsb_exists.
@@ -37,7 +37,7 @@ Proof.
   - apply in_map_iff in A. destruct A as (o & Ho & Hin). subst ms. cbn in B. apply zmem_iff in B. apply in_map_iff in B.
     destruct B as (i & Hi & Hin'). left. exists o. split; [assumption|]. exists i. auto.
   - apply in_map_iff in A. destruct A as (i & Hi & Hin). right. right. left. exists i. auto.
-  - apply in_map_iff in A. destruct A as (q & Hq & Hin). subst p. cbn in B. right. right. right. exists q. split; [assumption|lia].
+  - apply in_map_iff in A. destruct A as (q & Hq & Hin). subst p. cbn in B. apply filter_In in Hin. right. right. right. exists q. split; [tauto|lia].
 Qed.
 
 Lemma find_msub_map reg l : find_msub reg (map msub_of l) = option_map msub_of (find_sub reg l).
@@ -119,7 +119,7 @@ Qed.
 
 Definition acq (s : st) (o : op) : option (Z * Z) :=
   match o with
-  | Publish _ share file => if cclosed s then None else Some (pub_key s share, file)
+  | Publish _ share file => if cclosed s || ringfull s then None else Some (pub_key s share, file)
   | Avail _ corr reg file => match find_sub reg (subs s) with
                              | Some a => if live a then Some (corr, file) else None
                              | None => None
@@ -154,8 +154,10 @@ Lemma registry_step lg s o e' : In e' (registry (fst (step_p lg s o))) ->
   (exists e, In e (registry s) /\ e_key e' = e_key e /\ e_file e' = e_file e) \/ acq s o = Some (e_key e', e_file e').
 Proof.
   destruct o; cbn [step_p acq].
-  - destruct (cclosed s); cbn [fst]; [intros; left; exists e'; auto|]. intros H. apply timers_kf in H. left. exact H.
-  - destruct (cclosed s); cbn [fst]; [intros; left; exists e'; auto|]. intros H. apply timers_kf in H. destruct H as (e & A & B & C).
+  - destruct (cclosed s); cbn [fst]; [intros; left; exists e'; auto|]. destruct (ringfull s); cbn [fst]; [intros; left; exists e'; auto|].
+    intros H. apply timers_kf in H. left. exact H.
+  - destruct (cclosed s); cbn [fst orb]; [intros; left; exists e'; auto|]. destruct (ringfull s); cbn [fst]; [intros; left; exists e'; auto|].
+    intros H. apply timers_kf in H. destruct H as (e & A & B & C).
     unfold publish_ev in A. cbn [registry upd_registry] in A. apply acquire_kf in A. destruct A as [(e0 & A0 & A1 & A2)|[A1 A2]].
     + left. exists e0. split; [assumption|]. split; congruence.
     + right. f_equal. f_equal; congruence.
@@ -169,10 +171,12 @@ Proof.
     destruct (remove_first _ _) as [[i rest]|]; assumption.
   - cbn [fst]. intros H. apply timers_kf in H. left. exact H.
   - cbn [fst]. intros H. left. exists e'. split; [|auto]. unfold drop_sub in H. destruct (find_sub _ _) as [a|]; [|assumption]. destruct (so_inmap a); assumption.
-  - cbn [fst]. intros H. left. exists e'. split; [|auto]. unfold drop_pub in H. destruct (find _ _) as [p|]; [|assumption]. destruct (p_inmap p); assumption.
+  - cbn [fst]. intros H. left. exists e'. split; [|auto]. unfold drop_pub in H. destruct (find _ _) as [p|]; [|assumption]. destruct (p_inmap p); [destruct (ringfull s)|]; assumption.
   - cbn [fst]. intros H. left. exists e'. split; [|auto]. unfold hold in H. destruct (find_sub _ _) as [a|]; [|assumption]. destruct (if idx <? 0 then None else _); assumption.
   - cbn [fst]. intros H. left. exists e'. split; [|auto]. unfold unhold in H. destruct (j <? 0); assumption.
   - cbn [fst]. intros H. left. exists e'. split; [|auto]. unfold close_client in H. destruct (cclosed s); assumption.
+  - cbn [fst]. intros H. left. exists e'. auto.
+  - cbn [fst]. intros H. left. exists e'. auto.
 Qed.
 
 Lemma has_handle_keys mo now c ks k :
@@ -270,7 +274,7 @@ Lemma sim_finish lg mo s o mo1 ecbs newcbs :
   let s' := fst (step_p lg s o) in
   cblog s' = cblog s ++ newcbs -> map cb_view newcbs = ecbs ->
   mo_closed mo1 = cclosed s' -> mo_subs mo1 = map msub_of (subs s') ->
-  mo_pubs mo1 = map (fun p => (p_reg p, p_key p)) (pubs s') -> mo_clones mo1 = map i_corr (clones s') ->
+  mo_pubs mo1 = map (fun p => (p_reg p, p_key p)) (filter p_held (pubs s')) -> mo_clones mo1 = map i_corr (clones s') ->
   (forall a, In a (subs s') -> NoDup (map i_corr (so_imgs a))) ->
   ((mo_keys mo1 = mo_keys mo /\ acq s o = None) \/
    (exists k f, acq s o = Some (k, f) /\ bind_key k f (mo_keys mo) = Some (mo_keys mo1) /\ zmem f FILES = true /\ has_handle mo1 k = true)) ->
@@ -297,7 +301,7 @@ Definition Post (mo : mon) (s : st) (o : op) (s' : st) (ecbs : list (Z * Z * Z *
   exists newcbs,
   cblog s' = cblog s ++ newcbs /\ map cb_view newcbs = ecbs /\
   mo_closed mo1 = cclosed s' /\ mo_subs mo1 = map msub_of (subs s') /\
-  mo_pubs mo1 = map (fun p => (p_reg p, p_key p)) (pubs s') /\ mo_clones mo1 = map i_corr (clones s') /\
+  mo_pubs mo1 = map (fun p => (p_reg p, p_key p)) (filter p_held (pubs s')) /\ mo_clones mo1 = map i_corr (clones s') /\
   (forall a, In a (subs s') -> NoDup (map i_corr (so_imgs a))) /\
   ((mo_keys mo1 = mo_keys mo /\ acq s o = None) \/
    (exists k f, acq s o = Some (k, f) /\ bind_key k f (mo_keys mo) = Some (mo_keys mo1) /\ zmem f FILES = true /\ has_handle mo1 k = true)).
@@ -312,6 +316,10 @@ Qed.
 Lemma Post_keep mo s o lg : Sim lg mo s -> acq s o = None -> Post mo s o s [] mo.
 Proof. intros (S1 & S2 & S3 & S4 & S5 & S6) Ha. exists []. rewrite app_nil_r. auto 12. Qed.
 
+Lemma Post_same mo s o lg s' : Sim lg mo s -> acq s o = None ->
+  cblog s' = cblog s -> cclosed s' = cclosed s -> subs s' = subs s -> pubs s' = pubs s -> clones s' = clones s -> Post mo s o s' [] mo.
+Proof. intros (S1 & S2 & S3 & S4 & S5 & S6) Ha E1 E2 E3 E4 E5. exists []. rewrite E1, E2, E3, E4, E5, app_nil_r. auto 12. Qed.
+
 Lemma regs_fresh s : Inv s -> existsb (fun x => ms_reg x =? nid s) (map msub_of (subs s)) = false.
 Proof.
   intros (_ & _ & _ & _ & _ & F & _). destruct (existsb _ _) eqn:E; [|reflexivity]. apply existsb_exists in E.
@@ -325,7 +333,8 @@ Proof.
   intros HI HS. pose proof HS as (S1 & S2 & S3 & S4 & S5 & S6). cbn [step_p expect]. rewrite S1.
   destruct (cclosed s) eqn:Ec; cbn [fst snd].
   - exists [], mo. split; [reflexivity|]. apply (Post_keep mo s _ lg HS). reflexivity.
-  - rewrite S2, (regs_fresh s HI). eexists _, _. split; [reflexivity|]. apply Post_timers.
+  - destruct (ringfull s) eqn:Er; cbn [fst snd]; [exists [], mo; split; [reflexivity|]; apply (Post_same mo s _ lg _ HS); reflexivity|].
+    rewrite S2, (regs_fresh s HI). eexists _, _. split; [reflexivity|]. apply Post_timers.
     exists []. unfold subscribe_ev. cbn [cblog cclosed subs pubs clones upd_subs upd_nid mo_closed mo_subs mo_pubs mo_clones mo_keys].
     split; [rewrite app_nil_r; reflexivity|]. split; [reflexivity|]. split; [congruence|].
     split; [rewrite map_app; reflexivity|]. split; [assumption|]. split; [assumption|].
@@ -340,13 +349,15 @@ Proof.
   intros HS Hd. pose proof HS as (S1 & S2 & S3 & S4 & S5 & S6). unfold op_in_domain in Hd. cbn [step_p expect acq file_ok] in *. rewrite S1 in *.
   destruct (cclosed s) eqn:Ec; cbn [fst snd] in *.
   - exists [], mo. split; [reflexivity|]. apply (Post_keep mo s _ lg HS). cbn. rewrite Ec. reflexivity.
-  - rewrite !andb_true_iff in Hd. destruct Hd as [[_ Hf] Hb]. fold (pub_key s share) in *.
+  - destruct (ringfull s) eqn:Er; cbn [fst snd] in *;
+      [exists [], mo; split; [reflexivity|]; apply (Post_same mo s _ lg _ HS); try reflexivity; cbn; rewrite Ec, Er; reflexivity|].
+    rewrite !andb_true_iff in Hd. destruct Hd as [[_ Hf] Hb]. fold (pub_key s share) in *.
     destruct (bind_key (pub_key s share) file (mo_keys mo)) as [ks|] eqn:Eb; [|discriminate].
     eexists _, _. split; [reflexivity|]. apply Post_timers.
     exists []. unfold publish_ev. cbn [cblog cclosed subs pubs clones upd_subs upd_nid upd_pubs upd_registry mo_closed mo_subs mo_pubs mo_clones mo_keys].
     split; [rewrite app_nil_r; reflexivity|]. split; [reflexivity|]. split; [congruence|]. split; [assumption|].
-    split; [rewrite S3, map_app; reflexivity|]. split; [assumption|]. split; [assumption|].
-    right. exists (pub_key s share), file. split; [cbn [acq]; rewrite Ec; reflexivity|]. split; [assumption|]. split; [assumption|].
+    split; [rewrite S3, filter_app, map_app; reflexivity|]. split; [assumption|]. split; [assumption|].
+    right. exists (pub_key s share), file. split; [cbn [acq]; rewrite Ec, Er; reflexivity|]. split; [assumption|]. split; [assumption|].
     unfold has_handle. cbn [mo_pubs]. rewrite existsb_app. cbn. rewrite Z.eqb_refl. rewrite !orb_true_r. reflexivity.
 Qed.
 
@@ -445,20 +456,39 @@ Qed.
 Lemma filter_none_id {A} (f : A -> bool) (l : list A) : find f l = None -> filter (fun x => negb (f x)) l = l.
 Proof. induction l as [|a l IH]; cbn; [reflexivity|]. destruct (f a); [discriminate|]. cbn. intros H. rewrite IH; auto. Qed.
 
+Definition pub_view (p : pobj) : Z * Z := (p_reg p, p_key p).
+Definition orphan reg (x : pobj) := if is_held_pub reg x then mkPobj (p_reg x) (p_key x) true false else x.
+Lemma droppub_views reg : forall l,
+  let lhs := filter (fun p : Z * Z => negb (fst p =? reg)) (map pub_view (filter p_held l)) in
+  lhs = map pub_view (filter p_held (filter (fun x => negb (is_held_pub reg x)) l)) /\
+  lhs = map pub_view (filter p_held (map (orphan reg) l)) /\
+  (find (is_held_pub reg) l = None -> lhs = map pub_view (filter p_held l)).
+Proof.
+  cbv zeta. induction l as [|a l (IH1 & IH2 & IH3)]; [repeat split; reflexivity|].
+  cbn [filter map find].
+  destruct (p_held a) eqn:Eh; destruct (p_reg a =? reg) eqn:Er;
+    (assert (Hh : is_held_pub reg a = (p_reg a =? reg) && p_held a) by reflexivity; rewrite Er, Eh in Hh; cbn [andb] in Hh);
+    (assert (Ho : orphan reg a = if is_held_pub reg a then mkPobj (p_reg a) (p_key a) true false else a) by reflexivity; rewrite Hh in Ho);
+    rewrite ?Ho, !Hh; cbn [negb filter map fst pub_view p_held]; rewrite ?Eh, ?Er; cbn [negb filter map].
+  - split; [exact IH1|]. split; [exact IH2|]. discriminate.
+  - fold (pub_view a). split; [f_equal; exact IH1|]. split; [f_equal; exact IH2|]. intros H. f_equal. auto.
+  - split; [exact IH1|]. split; [exact IH2|]. exact IH3.
+  - split; [exact IH1|]. split; [exact IH2|]. exact IH3.
+Qed.
+
 Lemma expect_droppub lg mo s now reg : Sim lg mo s ->
   exists ecbs mo1, expect mo (DropPub now reg) (Ok 0) = Some (ecbs, mo1) /\
                    Post mo s (DropPub now reg) (fst (step_p lg s (DropPub now reg))) ecbs mo1.
 Proof.
   intros HS. pose proof HS as (S1 & S2 & S3 & S4 & S5 & S6). cbn [step_p expect acq fst] in *.
   eexists _, _. split; [reflexivity|]. exists []. cbn [mo_closed mo_subs mo_pubs mo_clones mo_keys]. rewrite app_nil_r.
-  assert (Hp : filter (fun p => negb (fst p =? reg)) (mo_pubs mo) =
-               map (fun p => (p_reg p, p_key p)) (filter (fun x => negb (p_reg x =? reg)) (pubs s))).
-  { rewrite S3. clear. induction (pubs s) as [|a l IH]; [reflexivity|]. cbn. destruct (negb (p_reg a =? reg)); cbn; rewrite IH; reflexivity. }
-  unfold drop_pub. destruct (find (fun p => p_reg p =? reg) (pubs s)) as [p|] eqn:Ef.
-  - destruct (p_inmap p); cbn [cblog cclosed subs pubs clones upd_pubs upd_nid]; (split; [reflexivity|]; split; [reflexivity|]; split; [assumption|];
-      split; [assumption|]; split; [exact Hp|]; split; [assumption|]; split; [assumption|left; auto]).
+  destruct (droppub_views reg (pubs s)) as (H1 & H2 & H3). fold pub_view in S3. rewrite <- S3 in H1, H2, H3. fold pub_view.
+  unfold drop_pub. fold (orphan reg). destruct (find (is_held_pub reg) (pubs s)) as [p|] eqn:Ef.
+  - destruct (p_inmap p); [destruct (ringfull s)|]; cbn [cblog cclosed subs pubs clones upd_pubs upd_nid];
+      (split; [reflexivity|]; split; [reflexivity|]; split; [assumption|];
+       split; [assumption|]; split; [first [exact H1|exact H2]|]; split; [assumption|]; split; [assumption|left; auto]).
   - split; [reflexivity|]. split; [reflexivity|]. split; [assumption|]. split; [assumption|].
-    split; [rewrite Hp, (filter_none_id _ _ Ef); reflexivity|]. split; [assumption|]. split; [assumption|left; auto].
+    split; [rewrite (H3 eq_refl); exact S3|]. split; [assumption|]. split; [assumption|left; auto].
 Qed.
 
 Lemma expect_hold lg mo s reg idx : Sim lg mo s ->
@@ -516,7 +546,7 @@ Proof.
     split; [reflexivity|]. split.
     { rewrite S2, !map_map. apply map_ext_in. intros a Ha. unfold close_msub, closed_sub. rewrite (closing_eq s a HI Ha).
       cbn [ms_live msub_of]. destruct (so_inmap a) eqn:Ei; unfold msub_of; cbn; [reflexivity|]. rewrite Ei. reflexivity. }
-    split; [rewrite S3, map_map; reflexivity|]. split; [assumption|]. split; [|left; auto].
+    split; [rewrite S3; clear; induction (filter p_held (pubs s)) as [|q l IHl]; [reflexivity|]; cbn; f_equal; exact IHl|]. split; [assumption|]. split; [|left; auto].
     intros a Ha. apply in_map_iff in Ha. destruct Ha as (b & Hb & Hin). subst. unfold closed_sub. destruct (closing b); cbn [so_imgs]; [constructor|auto].
 Qed.
 
@@ -535,6 +565,8 @@ Proof.
   - apply expect_hold; assumption.
   - apply expect_unhold; assumption.
   - apply expect_close; assumption.
+  - cbn [step_p snd fst expect]. exists [], mo. split; [reflexivity|]. apply (Post_same mo s _ lg _ HS); reflexivity.
+  - cbn [step_p snd fst expect]. exists [], mo. split; [reflexivity|]. apply (Post_same mo s _ lg _ HS); reflexivity.
 Qed.
 
 Lemma sim_step lg mo s o : time_ok lg -> wf s -> Inv s -> RInv s -> Sim lg mo s -> op_ok o ->
